@@ -211,6 +211,7 @@ def specs_nof(tier):
     for k in ("BosonOp", "FermionOp", "SigmaOpBase", "LadderOp"):
         s.append(("contracts.nof_from_expr", "unit_number_operator", {"kind": k, "timeout_ms": t}))
     s.append(("contracts.nof_from_expr", "unit_ladder_and_helpers", {"timeout_ms": t}))
+    s.append(("contracts.nof_from_expr", "unit_number_operator_new", {"timeout_ms": t}))
     # the constructor establishes the class invariant the other NOF units start from (counts per statistics, placeholders, term layout)
     for lay in (["BosonOp", "SigmaMinus", "FermionOp"], ["BosonOp", "LadderOp", "LadderOp", "FermionOp", "FermionOp"], []):
         for tk in ("dict", "pairs", "Tuple"):
